@@ -292,6 +292,40 @@ def scenario_stream(rec: Recorder, role: str, rnd: random.Random, garbage_p: flo
             rec.recv(bytes(rnd.randrange(256) for _ in range(rnd.randrange(1, 5))))
 
 
+def ad_notice(rnd: random.Random) -> t.Tuple[bytes, t.Dict[str, t.Any]]:
+    """The NoticeOfDisconnection of MS-ADTS: message id 0, an ExtendedResponse without responseName, and the OID in an
+    envelope extension  responseName [10] LDAPOID  after the protocolOp (documented by the library as supported)."""
+    res = sess._tlv(10, bytes([rnd.choice((2, 52, 80))])) + sess._tlv(4, b"") + sess._tlv(4, b"server going down")
+    body = sess._tlv(2, b"\x00") + sess._tlv(0x78, res) + sess._tlv(0x8A, proj.NOTICE_OID.encode())
+    return sess._tlv(0x30, body), {"k": "notice", "id": 0, "valid": True, "dig": "ad-notice"}
+
+
+def scenario_ad_notice(rec: Recorder, rnd: random.Random) -> None:
+    """A client with operations in progress receives Active Directory's notice of disconnection (a designed
+    termination: ProtocolError, CLOSED, nothing to send back), possibly after valid responses and chunked."""
+    rec.new("client", "ad-notice")
+    ids = []
+    for k in rnd.choice((["extReq"], ["searchReq", "extReq"], ["bindReq"])):
+        e = rec.call({"op": "send", "k": k})
+        if e["res"] == "ok":
+            ids.append((e["ret"], k))
+    rec.drain(None)
+    units = []
+    if ids and rnd.random() < 0.5:
+        i, k = ids[0]
+        units.append(unit_of(sess.concrete({"extReq": "extResp", "searchReq": "entry", "bindReq": "bindRespProg"}[k], i, rnd), rnd))
+    units.append(ad_notice(rnd))
+    rec.stream([{**u[1], "dig": ""} if u[1]["dig"] == "ad-notice" else u[1] for u in units])
+    stream = b"".join(u[0] for u in units)
+    bounds = [0]
+    for u in units:
+        bounds.append(bounds[-1] + len(u[0]))
+    for p in chunkings(stream, bounds[:-1], rnd, rnd.randrange(6)):
+        rec.recv(p)
+    rec.recv(b"")
+    rec.call({"op": "send", "k": "extReq"})
+
+
 def scenario_cuts(rec: Recorder, role: str, rnd: random.Random) -> None:
     """One short accepted stream, one trace per two-piece cut (exhaustive over single cuts)."""
     if role == "server":
@@ -466,6 +500,7 @@ def drive(seed: int, n_traces: int) -> t.List[t.Dict[str, t.Any]]:
         if j % 5 == 4:
             for _ in range(4):
                 scenario_anykind(rec, rnd.choice(("client", "server")), rnd)
+            scenario_ad_notice(rec, rnd)
         if u < 4:
             scenario_stream(rec, role, rnd, garbage_p=0.0, violate_p=0.03)
         elif u < 6:
